@@ -17,7 +17,7 @@ INFO = {
     "outside": ["crash = process death between two Python-level file operations or inside one write(); no fsync / power-loss reordering", "histories longer than sync, op, crashed sync, op, sync"],
     "stubs": ["memfs with logical clock, operation journal and crash injection (esp_kconfiglib.core's open / os / exists)"],
 }
-BUDGET = {"quick": 240, "thorough": 1100}
+BUDGET = {"quick": 240, "thorough": 800}
 
 D = "/m/deps"
 
